@@ -6,6 +6,7 @@
 //! the implementation-only property oracle found a violation on that case.
 #![allow(clippy::all)]
 
+mod alloc_track;
 mod bits;
 mod comps;
 mod cont_engine;
@@ -21,6 +22,9 @@ mod tracker_engine;
 mod world_engine;
 
 use std::io::{BufRead, BufWriter, Write};
+
+#[global_allocator]
+static GLOBAL: alloc_track::Tracker = alloc_track::Tracker;
 
 pub struct Out {
     pub nums: Vec<u64>,
